@@ -1,6 +1,7 @@
 """Scenario space and capture for the sorting-algorithm properties (C07, C08)."""
 from __future__ import annotations
 
+from mc.core import guard
 import itertools
 import warnings
 
@@ -106,6 +107,7 @@ def run(scn, owned=None):
         try:
             sim.run()
         except Exception as exc:
+            guard(exc)
             tr.error = exc
     tr.warnings = [w for w in wlog if "pkg_resources" not in str(w.message)]
     tr.calls = cap.calls
